@@ -29,6 +29,8 @@ type node struct {
 	// content leaf annotation
 	tok  string // expected decoded text; "" when the element is not a leaf
 	kind string // leaf kind for descriptors/signatures, e.g. "li2", "td@tfoot", "li1-p"
+	// textAfter: the leaf's own text follows its block children in the source (document order of its token)
+	textAfter bool
 }
 
 func el(tag string, kids ...*node) *node {
@@ -163,11 +165,14 @@ func leaves(n *node, skip func(*node) bool, out *[]*node) {
 	if skip != nil && skip(n) {
 		return
 	}
-	if n.tok != "" {
+	if n.tok != "" && !n.textAfter {
 		*out = append(*out, n)
 	}
 	for _, k := range n.kids {
 		leaves(k, skip, out)
+	}
+	if n.tok != "" && n.textAfter {
+		*out = append(*out, n)
 	}
 }
 
@@ -176,7 +181,7 @@ func prune(n *node, skip func(*node) bool) *node {
 	if n.tag != "" && skip(n) {
 		return nil
 	}
-	c := &node{tag: n.tag, attrs: n.attrs, src: n.src, srcX: n.srcX, dec: n.dec, tok: n.tok, kind: n.kind}
+	c := &node{tag: n.tag, attrs: n.attrs, src: n.src, srcX: n.srcX, dec: n.dec, tok: n.tok, kind: n.kind, textAfter: n.textAfter}
 	for _, k := range n.kids {
 		c.add(prune(k, skip))
 	}
